@@ -9,7 +9,7 @@ EXPLANATION = ('(1) per-character kernels write_utf8/write_utf16/utf8_measure/ut
                '(4) ST::string routes (ctor/set/from_*/to_*/operator= for each unit width, char_buffer, std::basic_string, string_view) agree with the free functions.')
 BOUNDS = {'quick': 'kernels: all scalars (no sequence bound); sequences: K<=2 scalars (<=8 UTF-8 bytes, <=4 UTF-16 units), Latin-1 <=4 bytes; one query per mode; STL routes (from_std_string overload set, to_std_* members): one or two characters',
           'thorough': 'K<=3 scalars (<=12 UTF-8 bytes), Latin-1 <=8 bytes'}
-OUTSIDE = 'sequences longer than K scalars (each loop iteration depends only on the <=4 units at the cursor: argued, not mechanised); std::basic_string objects are built (and read back) by libstdc++ code that is translated along with the library (its allocation goes through the heap model); u8string (char8_t) overloads and to_path/from_path'
+OUTSIDE = 'sequences longer than K scalars (each loop iteration depends only on the <=4 units at the cursor: argued, not mechanised); std::basic_string objects are built (and read back) by libstdc++ code that is translated along with the library (its allocation goes through the heap model); to_path/from_path (std::filesystem)'
 
 def queries():
     qs = []
@@ -69,7 +69,7 @@ def queries():
             qs.append(Q('repairer_identity_%s_%s' % (''.join(map(str, shp)), tier), 'C01_routes.c', 'strconv.cpp', config='small', defs={'OP': 6, 'SHAPE_K': len(shp), 'SHAPE_LENS': '{' + ','.join(map(str, shp)) + '}'},
                         unwind=4 * len(shp) + 6, heap_cap=32, tiers=(tier,), bound={'kernels': 'validate_utf8, cleanup_utf8', 'shape': list(shp)}, timeout=900))
         for shp in ([(4,), (3,), (1,)] if tier == 'quick' else [(2,), (1, 4)]):
-            for r, rn in ((1, 'from_utf8'), (2, 'ctor_cbuf'), (3, 'set_cbuf_move'), (4, 'from_std_string_view'), (5, 'from_std_string')):
+            for r, rn in ((1, 'from_utf8'), (2, 'ctor_cbuf'), (3, 'set_cbuf_move'), (4, 'from_std_string_view'), (5, 'from_std_string'), (6, 'ctor_char8_ptr'), (7, 'from_utf8_char8'), (8, 'from_std_u8string_view'), (9, 'from_std_u8string')):
                 for mode in (0, 1, 2):
                     if mode == 1 and shp != (1,): continue    # substitute_invalid through ST::string: > 12 GB beyond one byte (DESIGN.md section 1, last row); the repairer itself: repairer_identity_*
                     if tier == 'quick' and r != 1 and mode != 1: continue
